@@ -32,6 +32,10 @@ pub struct RemoteLeg {
     /// accumulated from the server's incremental updates with the table of an unbounded reference run
     #[serde(default)]
     pub full: bool,
+    /// full runs: a query and a stream over everything are requested straight after the open (while
+    /// the pipeline is still producing); both have to deliver every message, in the same sequence
+    #[serde(default)]
+    pub query: bool,
 }
 
 /// remote.rs wiring (parse -> lifecycle -> plugins -> [sort] -> server loop) with overridden channel
@@ -45,7 +49,14 @@ fn run_remote_leg(c: &PipeCase, r: &RemoteLeg, ctx: &mut Ctx) -> Result<(), Viol
     // the full run needs a mode that parses without further commands (one_pass_streams starts paused)
     let collect = if r.full { "true".to_string() } else { r.collect.clone() };
     let open = Cmd::Open { variant: 0, sort: r.sort, collect };
-    let mut cmds = vec![open.clone(), Cmd::Wait(r.wait1)];
+    let mut cmds = vec![open.clone()];
+    let n_msgs = trace.len();
+    if r.full && r.query {
+        let body = format!(r#"{{"window":[0,{}],"binary":true}}"#, n_msgs + 10);
+        cmds.push(Cmd::Stream { query: true, body: body.clone() });
+        cmds.push(Cmd::Stream { query: false, body });
+    }
+    cmds.push(Cmd::Wait(r.wait1));
     if r.full {
         cmds.push(Cmd::WaitParsed);
         cmds.push(Cmd::Wait(300));
@@ -108,6 +119,41 @@ fn run_remote_leg(c: &PipeCase, r: &RemoteLeg, ctx: &mut Ctx) -> Result<(), Viol
             viol!("remote-lifecycle-updates-stale", "remote.rs pipeline (sort={}, collect={}): the lifecycle table a client accumulates from the server's updates (ecu, msgs, start, end) {:?} differs from the table of the unbounded reference run {:?}", r.sort, r.collect, got, want);
         }
         ctx.probe("remote_lifecycle_updates_compared");
+        if r.query {
+            // cmd 1 = query, cmd 2 = stream
+            let id_of = |cmd: usize| t.events.iter().find_map(|e| if let crate::remotesim::Ev::Reply { cmd_no, text } = e { if *cmd_no == cmd { crate::remotesim::announced_id(text) } else { None } } else { None });
+            let collect_of = |id: Option<u32>| -> (Vec<u32>, bool) {
+                let mut v = vec![];
+                let mut ended = false;
+                for e in t.events.iter() {
+                    if let crate::remotesim::Ev::Msgs { id: i, msgs } = e {
+                        if Some(*i) == id {
+                            if msgs.is_empty() {
+                                ended = true;
+                            }
+                            v.extend(msgs.iter().map(|m| m.index));
+                        }
+                    }
+                }
+                (v, ended)
+            };
+            let (q, q_ended) = collect_of(id_of(1));
+            let (st, _) = collect_of(id_of(2));
+            if st.len() != n_msgs {
+                viol!("remote-stream-count", "remote.rs pipeline (sort={}): a stream over everything requested straight after the open delivered {} of {} messages although parsing finished long ago", r.sort, st.len(), n_msgs);
+            }
+            if !r.sort && st.iter().enumerate().any(|(i, x)| *x as usize != i) {
+                viol!("remote-stream-order", "remote.rs pipeline (unsorted): the stream does not deliver the messages in file order: {:?}...", &st[..std::cmp::min(12, st.len())]);
+            }
+            if q != st {
+                let first = q.iter().zip(st.iter()).position(|(a, b)| a != b).unwrap_or(std::cmp::min(q.len(), st.len()));
+                viol!("remote-query-differs-from-stream", "remote.rs pipeline (sort={}): a query over everything requested while the pipeline was still producing delivered {} messages (end marker: {}), the stream requested at the same time {}; first difference at position {}", r.sort, q.len(), q_ended, st.len(), first);
+            }
+            if !q_ended {
+                viol!("remote-query-not-terminated", "remote.rs pipeline (sort={}): the query got no end marker although parsing finished long ago", r.sort);
+            }
+            ctx.probe("remote_query_vs_stream_compared");
+        }
     }
     ctx.event_u64(t.events.len() as u64);
     ctx.nontrivial = session.trace.len() > 1;
@@ -312,7 +358,7 @@ impl Check for C13 {
         let sched = SchedCfg::gen(&mut rng.sub("sched"));
         let remote = if idx % 8 == 5 {
             let mut r = rng.sub("remote");
-            Some(RemoteLeg { sort: r.chance(1, 2), collect: (*r.pick(&["true", "true", "\"one_pass_streams\"", "false"])).to_string(), wait1: *r.pick(&[0usize, 0, 1, 3, 10, 50, 400]), pause: r.chance(1, 4), wait2: *r.pick(&[0usize, 2, 30]), full: r.chance(1, 2) })
+            Some(RemoteLeg { sort: r.chance(1, 2), collect: (*r.pick(&["true", "true", "\"one_pass_streams\"", "false"])).to_string(), wait1: *r.pick(&[0usize, 0, 1, 3, 10, 50, 400]), pause: r.chance(1, 4), wait2: *r.pick(&[0usize, 2, 30]), full: r.chance(1, 2), query: r.chance(1, 2) })
         } else {
             None
         };
